@@ -340,6 +340,37 @@ pub fn c03(opts: &Opts, out: &mut Out) {
     bad_promise_big.stmt.minimum_value_promises[5] = Some(u64::MAX);
     bad_promise_big.fit = false;
     bad_promise_big.valid = false;
+    // a member whose Pedersen set differs from the others' in ONE blinding generator other than the first, its proof
+    // made under the common set (so that nothing but the consistency check can refuse it)
+    let one_gen: Option<Tmpl> = if t >= 2 {
+        use tari_bulletproofs_plus::traits::Compressable;
+        let base = make_valid(n, 1, 1, t, false, 0, &mut rng);
+        let mut pg = crate::fm::fm_pedersen(fmrun::deg(t));
+        pg.g_base_vec[t - 1] = FP::named("Gb-one-off");
+        pg.g_base_compressed_vec[t - 1] = pg.g_base_vec[t - 1].compress();
+        let pr = RangeParameters::init(n, 1, pg).unwrap();
+        RangeStatement::init(pr, base.stmt.commitments.clone(), base.stmt.minimum_value_promises.clone(), None).ok().map(|st| {
+            let mut x = base.clone();
+            x.stmt = st;
+            x.ped = 2;
+            x.valid = false;
+            x
+        })
+    } else {
+        None
+    };
+    if let Some(odd) = &one_gen {
+        let cap1: Vec<&Tmpl> = valid.iter().filter(|v| v.inst.cap == 1 && v.inst.m == 1).collect();
+        for (k, pos) in [(2usize, 1usize), (2, 0), (3, 2), (257, 256)] {
+            let mut ms: Vec<&Tmpl> = (0..k).map(|i| cap1[i % cap1.len()]).collect();
+            ms[pos] = odd;
+            for a in [VerifyAction::VerifyOnly, VerifyAction::RecoverAndVerify, VerifyAction::RecoverOnly] {
+                check_batch(out, "C03", &format!("one-blinding-generator-differs@{}", pos), &ms, k, k, a);
+            }
+            shapes.insert((k, "one-blinding-generator", pos));
+            nb += 1;
+        }
+    }
     for (name, odd) in [("other-bits", &other_n), ("other-degree", &other_t), ("other-pedersen", &other_ped), ("promise-out-of-range", &bad_promise),
         ("other-pedersen-largest", &other_ped_big), ("other-degree-largest", &other_t_big), ("promise-out-of-range-largest", &bad_promise_big)] {
         for (k, pos) in [(2usize, 1usize), (3, 0), (300, 280), (300, 10), (257, 256), (513, 512)] {
